@@ -28,6 +28,9 @@ static int quiet;
 /* scripted result of the handler invoked by the current op */
 static int cur_res;
 static int cur_zero;
+/* the handler invoked by the current op (outermost invocation only) dispatches the event by hash instead of answering */
+static int cur_nest;
+static int in_nest;
 
 static int handler(void *arg, MPT_STRUCT(event) *ev)
 {
@@ -39,6 +42,14 @@ static int handler(void *arg, MPT_STRUCT(event) *ev)
 		++logn;
 	}
 	if (!ev) return 0;
+	if (cur_nest && !in_nest) {
+		/* the documented wiring of text commands: the handler of the message type hands the event to mpt_dispatch_hash */
+		int r;
+		in_nest = 1;
+		r = mpt_dispatch_hash(DISP, ev);
+		in_nest = 0;
+		return r;
+	}
 	if (cur_zero) ev->id = 0;
 	return cur_res;
 }
